@@ -613,6 +613,8 @@ def classify(case, i, spec):
     op = case["ops"][i]
     if spec.hazard:
         return spec.hazard
+    if case["sss"] and any(list(r) == [50] for r in case.get("rows", [])) and op[0] in ONLYONE + ("f1", "nx", "all", "fm", "it"):
+        return "scalar-source-none-row-read-as-end-of-result"
     if spec.f17 and op[0] in ONLYONE:
         return "unique-onlyone-after-partial-consumption"
     if case["kind"].startswith("merged:") and any(o[0] in ONLYONE + ("close",) for o in case["ops"][:i]) and spec.merged:
@@ -896,6 +898,16 @@ FIXED = [
 ]
 
 
+# checked by the oracle only (outside the model's envelope)
+FIXED_ORACLE_ONLY = [
+    # ORM single-entity result with a None entity (outer join): `if row is None` in
+    # _onerow_getter / _only_one_row reads the row as end-of-result
+    {"kind": "iter", "sss": True, "width": 1, "rows": [[50], [1]],
+     "ops": [("f1", "r"), ("all", "r", "all")]},
+    {"kind": "iter", "sss": True, "width": 1, "rows": [[50]], "ops": [("one", "r")]},
+]
+
+
 def trunc_for_model(case):
     """number of leading ops sent to the model: MergedResult after a hard close is outside
     the model (finding merged-result-close-not-enforced)"""
@@ -928,6 +940,11 @@ def run(ctx, deep=False):
         n = 2500 if ctx.tier == "quick" else 40000
         if deep:
             n = 60000
+        for case in (tuplify(c) for c in FIXED_ORACLE_ONLY):
+            outs, extras = run_impl(env, case)
+            bad = check_case(case, outs, extras)
+            if bad:
+                ctx.violation(bad[0], case, bad[2])
         cases = [tuplify(c) for c in FIXED]
         for _ in range(n):
             cases.append(gen_case(ctx.rng, ctx.tier if not deep else "thorough"))
